@@ -23,7 +23,7 @@ def esc(s):
 
 def seeded():
     rows = ["| id | what was changed | needs to manifest | caught | failure signature |", "|---|---|---|---|---|"]
-    n = c = 0
+    n = c = other = 0
     for d in sorted((ROOT / "seeded").iterdir()):
         m = json.loads((d / "meta.json").read_text())
         by = [p for p in m.get("caught_by", []) if p != m["property"]]
@@ -33,8 +33,9 @@ def seeded():
             how = "no-failing-input-found [correspondence only]"
         n += 1
         c += bool(m.get("caught"))
+        other += bool(m.get("caught")) and m["property"] not in m.get("caught_by", [m["property"]])
         rows.append(f"| {m['id']} | {esc(m.get('summary', ''))[:170]} | {esc(m.get('needs_to_manifest', ''))[:130]} | {('yes' + (' (by the check of ' + ', '.join(by) + ')' if by and m['property'] not in m.get('caught_by', []) else '')) if m.get('caught') else ('NO' if 'caught' in m else 'not run')} | {esc(how)} |")
-    return f"{n} changes, {c} caught by the property's quick check.\n\n" + "\n".join(rows)
+    return f"{n} changes, {c} caught ({c - other} by the quick check of their own property, {other} by the check of the property whose mechanism they change).\n\n" + "\n".join(rows)
 
 
 def benign():
@@ -51,6 +52,8 @@ def benign():
         verdict = "quiet" if m["quiet"] else "ALARM: " + esc(cr.get("signature")) + (" (no-failing-input-found)" if cr.get("violation") and "no-failing-input-found" in cr["violation"] else "")
         if m.get("after_fix"):
             verdict += " → " + esc(m["after_fix"])
+        if m.get("stale"):
+            verdict += " (" + esc(m["stale"]) + ")"
         rows.append(f"| {m['id']} | {esc(m.get('summary', ''))[:200]} | {esc(m['tests_with_change'])[:22]} | {verdict} |")
     return f"{n} rewrites, {q} left the property's quick check quiet at first run.\n\n" + "\n".join(rows)
 
